@@ -78,7 +78,7 @@ func main() {
 	}
 	if *writeInv {
 		fmt.Println("# function declarations of the production packages of the reference tree (goatverif -write-inventory)")
-		fmt.Println(strings.Join(declaredFuncKeys(p.Pkgs), "\n"))
+		fmt.Println(strings.Join(inventoryLines(p.Pkgs), "\n"))
 		return
 	}
 	for _, l := range p.NormaliseLog {
